@@ -354,6 +354,8 @@ pub fn plan(tier: &str) -> Vec<crate::crash::SubRun> {
             v.push(SubRun { cfg: c(n, false), prefix: shared.clone(), alphabet: ops::alphabet("crash"), depth: 3, nest: 0, label: "shared-prefix d3" });
             v.push(SubRun { cfg: c(n, false), prefix: vec![], alphabet: crate::crash::big_alphabet(), depth: 3, nest: 0, label: "big records/blobs d3" });
         }
+        v.push(SubRun { cfg: c(10_000, false), prefix: vec![], alphabet: ops::alphabet("crash"), depth: 5, nest: 0, label: "fresh d5" });
+        v.push(SubRun { cfg: c(2, false), prefix: vec![], alphabet: ops::alphabet("crash"), depth: 5, nest: 0, label: "fresh d5" });
     }
     v
 }
